@@ -338,7 +338,8 @@ class AbstractJob:                                      # pylint: disable=R0902
         # is it critical or not ?
         c_crit = self._c_warning if self.is_critical() else " "
         # has it raised an exception or not ?
-        c_boom = self._c_black_star if self.raised_exception() \
+        c_boom = self._c_black_star \
+            if self.raised_exception() is not None \
             else self._c_sun if self.is_running() \
             else " "
         # is it going forever or not
@@ -361,7 +362,7 @@ class AbstractJob:                                      # pylint: disable=R0902
         # is it critical or not ?
         c_crit = "!" if self.is_critical() else " "
         # has it raised an exception or not ?
-        c_boom = ":(" if self.raised_exception() \
+        c_boom = ":(" if self.raised_exception() is not None \
                  else ":)" if self.is_running() \
                  else "  "
         # is it going forever or not
@@ -423,7 +424,7 @@ class AbstractJob:                                      # pylint: disable=R0902
             the result or exception of the job.
         """
         exception = self.raised_exception()
-        if exception:
+        if exception is not None:
             critical_msg = "CRIT. EXC." if self.is_critical() \
                            else "exception"
             return ("!! {} => {}:{}!!"
